@@ -79,7 +79,7 @@ def harness(sym):
 def _shards(tier):
     if tier == "quick":
         return [{"n": 4, "ops": [a, b]} for a in OPS for b in OPS]
-    third = [o for o in OPS if o in ("write_batch", "tick6")] or OPS[:2]
+    third = ["batch", "tick6"]
     return [{"n": 5, "ops": [a, b, c]} for a in OPS for b in OPS for c in third]
 
 
